@@ -53,7 +53,7 @@ theorem BStep.bind_out (st : BStep v v' ws gs) (y : Nat) (bt : BindType) (p : Na
     · simp only [Msg.frame.injEq, Frame.bind.injEq] at hm
       obtain ⟨rfl, rfl, rfl, rfl⟩ := hm
       exact Or.inr ⟨req, by simp⟩
-  | reply k b acc hk ho => left; cases acc <;> simpa using hm
+  | reply k b acc hk hal ho => left; cases acc <;> simpa using hm
   | dropReq k b hk =>
     left
     simp only [List.nil_append] at hm
@@ -157,7 +157,7 @@ theorem BStep.finish_out (st : BStep v v' ws gs) (y : Nat) (hm : Msg.frame (.fin
     rcases hm with hm | hm
     · exact Or.inl hm
     · subst hm; exact Or.inr (Or.inl ok)
-  | reply k b acc hk ho =>
+  | reply k b acc hk hal ho =>
     simp only [List.nil_append, List.mem_append, List.mem_singleton] at hm
     rcases hm with hm | hm
     · exact Or.inl hm
@@ -225,7 +225,7 @@ theorem HeldShown.step {g : List BEv} (h : HeldShown v g) (st : BStep v v' ws gs
       have : k = v.held.length := by omega
       subst this
       simp
-  | reply k' b' acc hk' ho =>
+  | reply k' b' acc hk' hal ho =>
     obtain ⟨b0, h0, e1, e2, e3, e4⟩ := getElem?_modify_fields (f := fun b => { b with replied := true })
       (fun _ => ⟨rfl, rfl, rfl, rfl⟩) hk
     rw [e1, e2, e3, e4]; exact List.mem_append_left _ (h k b0 h0)
